@@ -66,6 +66,19 @@ def alphabet(tier):
         ops.append((((a, SPEC[a][0]), (b, vb)), 'ok'))      # explicit default + valid == single valid
     ops.append(((('is_pep484_tower', 'True'), ('hint_overrides', 'FrozenDict({float: float | int, complex: complex | float | int})')), 'ok'))
     ops.append(((('is_pep484_tower', 'True'), ('hint_overrides', 'FrozenDict({float: str})')), 'exc'))
+    # every combination of {absent, equal to the tower, conflicting} for the float and the complex entry under the tower
+    for fl in (None, 'float: float | int', 'float: str'):
+        for cx in (None, 'complex: complex | float | int', 'complex: str'):
+            if fl is None and cx is None:
+                continue
+            items = ', '.join(x for x in (fl, cx) if x)
+            exp = 'exc' if 'str' in items else 'ok'
+            op = ((('is_pep484_tower', 'True'), ('hint_overrides', 'FrozenDict({%s})' % items)), exp)
+            if op not in ops:
+                ops.append(op)
+            op2 = ((('hint_overrides', 'FrozenDict({%s})' % items),), 'ok')        # without the tower any override is fine
+            if op2 not in ops:
+                ops.append(op2)
     ops.append(((('violation_type', 'TypeError'), ('violation_param_type', 'KeyError')), 'ok'))
     ops.append(((('violation_door_type', 'TypeError'), ('violation_param_type', 'TypeError'), ('violation_return_type', 'TypeError')), 'ok'))
     seen, out = set(), []
@@ -233,6 +246,9 @@ def run(ctx):
             # read back as passed
             for k, v in items:
                 want = repr(eval(v, ns))
+                if k == 'hint_overrides' and ('is_pep484_tower', 'True') in items:
+                    # the documented numeric-tower adjustment: the tower's two entries are merged into the overrides
+                    want = repr(eval(f'FrozenDict({{**{v}, float: float | int, complex: complex | float | int}})', ns))
                 got = rb[READ.index(k)]
                 # documented placeholders: violation_*_type=None means "the default class", which is what reads back
                 if got != want and not (k == 'is_color' and v == 'None') and not (k.startswith('violation_') and k.endswith('_type') and v == 'None'):
